@@ -14,7 +14,7 @@ import itertools
 import os
 import random
 
-from ..core import B, outcome, hash_prim, REPO
+from ..core import B, outcome, hash_prim, REPO, spec_wordlist
 
 
 def run(ctx):
@@ -22,13 +22,12 @@ def run(ctx):
     from buidl.pbkdf2 import PBKDF2
     rng = random.Random(ctx.seed)
     q = ctx.quick
-    words = open(os.path.join(REPO, "buidl", "bip39_words.txt")).read().split()
-    assert len(words) == 2048
+    words = spec_wordlist(ctx, "bip39", MN.BIP39)
     widx = {w: i for i, w in enumerate(words)}
     ctx.rule = ("cases = recorded encode/decode/seed/PBKDF2 calls decided by TLC; distinct = (entropy size, pattern), (word count, validity class, "
                 "full words / prefixes), (passphrase class, sentence-length class), (rounds, dkLen)")
     ctx.assumptions = ["sha256 / HMAC-SHA512 rows and the 2048-round PBKDF2 value are certified with hashlib (trusted base)",
-                       "the word list is read from buidl/bip39_words.txt by the harness; BIP39's list itself is not re-derived"]
+                       "BIP39's English word list is part of the specification (specs/bip39/english.txt, sha256 2f5eed53...); the list the library loads must equal it"]
     if ctx.want("mc"):
         r = ctx.mc_expect_ok("bip39/PBKDF2Stream.tla", "PBKDF2Stream.cfg", what="PBKDF2 read() stream machine", workers=2)
         ctx.exhaustive.append("PBKDF2Stream: every sequence of read sizes 0..2B+1 with total <= MaxTotal (%d transitions)" % r.generated)
@@ -84,6 +83,40 @@ def run(ctx):
                 cases.append({"id": "d%d.%s" % (k, name), "kind": "dec", "idx": idx, "hr": [sha_row(ce)] if ce is not None else [], "accepted": got[0] == "ok",
                               "bytes": B(got[1]) if got[0] == "ok" else [], "form": ":" + name})
                 ctx.nontriv(("dec", len(seq), name, got[0] == "ok"))
+    # near misses of the last word: BIP39 words that are a proper prefix of another BIP39 word (win / window, act / actor, ...).
+    # Entropy is searched so that the correct last word is the long (resp. the short) one and the other is put in its place.
+    longer = {}
+    for w in words:
+        for w2 in words:
+            if w2 != w and w2.startswith(w):
+                longer.setdefault(w, []).append(w2)
+    shorter = {}
+    for w, ls in longer.items():
+        for l in ls:
+            shorter.setdefault(l, []).append(w)
+    for size in ((16, 32) if q else (16, 20, 24, 28, 32)):
+        cs = size // 4
+        for direction, table in (("long->short", shorter), ("short->long", longer)):
+            for _ in range(4000):
+                ent = rb(size)
+                last = ((int.from_bytes(ent, "big") << cs) | (hashlib.sha256(ent).digest()[0] >> (8 - cs))) & 2047
+                if words[last] in table:
+                    break
+            else:
+                continue
+            m = outcome(MN.bytes_to_mnemonic, ent, size * 8)
+            if m[0] != "ok" or m[1].split()[-1] != words[last]:
+                continue        # the encoding itself is decided by the "enc" cases
+            ws = m[1].split()
+            for other in table[words[last]]:
+                seq = ws[:-1] + [other]
+                got = outcome(MN.mnemonic_to_bytes, " ".join(seq))
+                idx = [widx[w] for w in seq]
+                ce = cand_ent(idx)
+                k += 1
+                cases.append({"id": "d%d.nearmiss" % k, "kind": "dec", "idx": idx, "hr": [sha_row(ce)] if ce is not None else [], "accepted": got[0] == "ok",
+                              "bytes": B(got[1]) if got[0] == "ok" else [], "form": ":last-word-" + direction})
+                ctx.nontriv(("dec-nearmiss", size, direction, got[0] == "ok"))
     # random word sequences of every length 11..25
     for n in range(11, 26):
         for rep in range(1 if q else 4):
